@@ -24,7 +24,7 @@ pathattr = ''
 pm = re.search(r'#\[path\s*=\s*"([^"]+)"\]', modtxt)
 if pm:
     # child module of a non-mod file: `#[path = ".."] mod x;` appended to the END of the named source file
-    tm = re.search(r'END of (src/[\w/]+\.rs)', modtxt)
+    tm = re.search(r'END of\s+(src/[\w/]+\.rs)', modtxt)
     if tm:
         modfile = tm.group(1)
         pathattr = '#[path = "%s"]\n' % pm.group(1)
